@@ -334,6 +334,9 @@ class Builder:
         if failed:
             low = ch.int(1, 0xFFF)
             code = low | (ch.choice([0, 0, 0, 0x1000, 0x80000000, 0xFFFFF000]))
+            if ch.chance(1, 10):
+                # non-zero, but the twelve low bits are clear (only reserved bits set): still a failure - nothing follows the header
+                code = ch.choice([0x00001000, 0x00010000, 0x40000000, 0xABCDE000, 0xFFFFF000])
             toks = head + [[f"{path}.responseCode", fr["responseCode"], code]]
             toks[2][2] = self._nbytes(toks)
             return toks, {"cc_name": cc_name, "sessions": n_sessions, "failed": True, "encrypt": False}
@@ -549,11 +552,12 @@ def long_lists(draw, layout):
 def huge_cases(layout):
     """Deterministic well-formed encodings with very long buffers / lists (lengths around 4096, 8192 and the UINT16 limit)."""
     out = []
-    for n in (4095, 4096, 4097, 8191, 8192, 8193, 65535):
+    # (4094, 8190, 16382 and 65534 make the whole encoding exactly 4096, 8192, 16384 and 65536 bytes long)
+    for n in (4094, 4095, 4096, 4097, 8190, 8191, 8192, 8193, 16382, 65534, 65535):
         toks = [["", "TPM2B_MAX_BUFFER", ELLIPSIS], [".size", "UINT16", n], [".buffer", "list[BYTE]", ELLIPSIS]]
         toks += [[f".buffer[{i}]", "BYTE", (i * 7 + n) & 0xFF] for i in range(n)]
         out.append(Case("TPM2B_MAX_BUFFER", toks, layout, meta={"lists": [("list[BYTE]", n)], "flags": ["huge"]}))
-    for n in (4097, 8193):
+    for n in (2046, 4094, 4097, 8193):
         algs = [v for lo, hi in layout.allowed("TPM_ALG_ID") for v in range(lo, hi + 1)]
         toks = [["", "TPML_ALG", ELLIPSIS], [".count", "UINT32", n], [".algorithms", "list[TPM_ALG_ID]", ELLIPSIS]]
         toks += [[f".algorithms[{i}]", "TPM_ALG_ID", algs[i % len(algs)]] for i in range(n)]
